@@ -339,6 +339,9 @@ impl Engine {
             vec![vec![0.0; 0]; lf0.len()]
         };
 
+        #[cfg(feature = "verif-hooks")]
+        crate::speech::verif_record_durations(&durations);
+
         Ok(SpeechGenerator::new(
             self.condition.fperiod,
             vocoder,
